@@ -17,6 +17,10 @@ CLAIMS = {
                 text="Held on N generated DeriveInput items (all data shapes, generics, hostile #[darling ...] bodies on container / variant / field positions) x 6 derives, each run in-process under catch_unwind with its output parsed as items: exactly one impl of the trait or >=1 compile_error!, never both, never nothing, never a panic.",
                 note="The derive functions are called through darling_core::derive::*, which is all the proc-macro shim does after parsing.",
                 technique="runtime monitoring: grammar-based hostile input generation, panic and output-shape monitor around every derive call"),
+    "C10": dict(engine="direct",
+                text="Held on the enumerated sub-space (all ordered singles/pairs/triples of field-option spellings x attribute splits x 6 derives; all variant-option pairs; all container-option pairs per trait and body) plus N random declarations with 0..4 rule violations: the documented rule set is evaluated on the declaration data and compared with the derive's output (impl iff no rule violated; otherwise only diagnostics, each demanded rule covered at its tokens, no diagnostic elsewhere).",
+                note="Rule loci are byte ranges recorded while rendering the declaration; attribution is by span containment, never by message text. from_ident+default, zero-field tuple bodies and skipped multi-field tuple variants are outside the stated rules and not generated.",
+                technique="runtime monitoring: generated declarations judged by an independent executable rule set, span-based attribution of diagnostics"),
     "C11": dict(engine="direct",
                 text="Held on the exhaustive sub-space (24 integer targets x [-70000,70000] x quoted/unquoted) plus N random literals (radix 2/8/10/16, underscores, suffixes, 1..60 digits, type boundaries +-2, floats, bool/char/string forms) converted by all 30 scalar targets; reference is str::parse::<T> of the denoted value known to the generator; errors must be spanned inside the item.",
                 note="Trusts Rust's str::parse as the standard parsing the property names and syn's lexer for delivering the literal; items are classified by the syn::Expr variant darling is handed."),
